@@ -77,6 +77,32 @@ func meetFacts(a, c map[*Term]*Term) map[*Term]*Term {
 	return n
 }
 
+// underFacts resolves the ite structure of a term with the facts of the current
+// path (a value merged at the return of a helper - "wrote one chunk or two" -
+// is a constant again once the caller has tested the helper's error result).
+func (x *Exec) underFacts(t *Term) *Term {
+	if len(x.curFacts) == 0 || isC(t) {
+		return t
+	}
+	if c := x.factOf(t); c != nil {
+		return c
+	}
+	if t.Op == "ite" {
+		c := t.Args[0]
+		if f := x.factOf(c); f != nil {
+			c = f
+		}
+		switch c.Op {
+		case "true":
+			return x.underFacts(t.Args[1])
+		case "false":
+			return x.underFacts(t.Args[2])
+		}
+		return x.b.Ite(c, x.underFacts(t.Args[1]), x.underFacts(t.Args[2]))
+	}
+	return t
+}
+
 // factOf: the constant a term is known to equal on the current path, or nil.
 func (x *Exec) factOf(t *Term) *Term {
 	if c, ok := x.curFacts[t]; ok {
@@ -157,6 +183,8 @@ type Exec struct {
 	depth  int
 
 	useContracts bool
+	dropAux      bool // loop invariants labelled [aux] are ignored
+	ignoreLoops  bool // loop contracts are ignored altogether: loops are unrolled
 	noInline     map[*ssa.Function]bool // functions that must not be inlined (havocked instead; refutation only)
 
 	// statistics
@@ -186,11 +214,14 @@ type Exec struct {
 	unmodelledWritten  map[string]bool
 	retCond            *Term // disjunction of the path conditions of the returns of the last completed run
 	asserts            map[string][2]Value
+	assertTypes        map[string]types.Type
 	assertHeap         Heap
 	curArgs            [][]Value
 	curEntry           []Heap
 	iters              []*IterV
 	opaqueNil          map[*OpaqueV]*Term
+	ctxDone            map[string]*Term // opaque context -> "its Done channel is known to be closed"
+	mapLens            []mapLen
 	bounded            []string // loops cut at a fixed depth: the obligations of this run can refute, not prove
 	curFacts           map[*Term]*Term
 	seedFacts          map[*Term]*Term // facts implied by the hypotheses of the case (each is also an obligation of the split's own lemma)
@@ -462,7 +493,7 @@ func sameValue(a, b Value) bool {
 	switch u := a.(type) {
 	case *PtrV:
 		v, ok := b.(*PtrV)
-		if !ok || u.Obj != v.Obj || u.Nil != v.Nil || len(u.Path) != len(v.Path) {
+		if !ok || u.AltC != nil || v.AltC != nil || u.Obj != v.Obj || u.Nil != v.Nil || len(u.Path) != len(v.Path) {
 			return false
 		}
 		for i := range u.Path {
@@ -534,6 +565,18 @@ func (x *Exec) toIdx64(v *Term, t types.Type) *Term {
 
 // load reads through a pointer.
 func (x *Exec) load(p *PtrV, st *State, pc *Term, what string) Value {
+	if p.AltC != nil {
+		va := x.load(p.AltA, st, x.b.And(pc, p.AltC), what)
+		vb := x.load(p.AltB, st, x.b.And(pc, x.b.Not(p.AltC)), what)
+		x.curHeapForStr = st.h
+		x.curHeapA, x.curHeapB = st.h, st.h
+		r := x.iteV(p.AltC, va, vb)
+		for o, v := range x.pendingObjs {
+			st.h[o] = v
+			delete(x.pendingObjs, o)
+		}
+		return r
+	}
 	x.oblige("nil-deref", pc, x.b.Not(x.ptrNil(p)))
 	if p.Obj == nil {
 		// definitely nil: the obligation above is already `pc => false`;
@@ -613,6 +656,31 @@ func (x *Exec) noteSelect(a, idx *Term) {
 }
 
 func (x *Exec) store(p *PtrV, v Value, st *State, pc *Term) {
+	if p.AltC != nil {
+		// the location that is not selected keeps its value
+		for _, alt := range []struct {
+			p *PtrV
+			c *Term
+		}{{p.AltA, p.AltC}, {p.AltB, x.b.Not(p.AltC)}} {
+			g := x.b.And(pc, alt.c)
+			if g.Op == "false" {
+				continue
+			}
+			if alt.p.AltC != nil || alt.p.Obj == nil {
+				x.store(alt.p, v, st, g)
+				continue
+			}
+			x.curHeapForStr = st.h
+			x.curHeapA, x.curHeapB = st.h, st.h
+			old := x.getPath(st.h[alt.p.Obj], alt.p.Path)
+			x.store(alt.p, x.iteV(alt.c, v, old), st, g)
+			for o, ov := range x.pendingObjs {
+				st.h[o] = ov
+				delete(x.pendingObjs, o)
+			}
+		}
+		return
+	}
 	x.oblige("nil-deref", pc, x.b.Not(x.ptrNil(p)))
 	if p.Obj == nil {
 		unsupported("store through nil pointer")
@@ -691,7 +759,7 @@ func (x *Exec) run(fn *ssa.Function, args []Value, st *State, pcIn *Term) (Value
 	concrete := false // a loop without invariant: followed concretely (every branch condition must fold)
 	if len(fi.headers) > 0 {
 		c := x.ld.contractFor(fn)
-		covered := c != nil && len(c.Loops) > 0
+		covered := c != nil && len(c.Loops) > 0 && !x.ignoreLoops
 		if covered {
 			for k := range fi.headers {
 				covered = covered && c.Loops[k] != nil
@@ -812,12 +880,18 @@ func (x *Exec) run(fn *ssa.Function, args []Value, st *State, pcIn *Term) (Value
 				cur.h[o] = x.zeroV(et)
 				vals[i] = &PtrV{Obj: o}
 			case *ssa.FieldAddr:
-				p := get(i.X).(*PtrV)
-				if p.Obj == nil {
-					x.oblige("nil-deref", pc, b.False())
-					unsupported("field address of nil pointer")
+				var fa func(p *PtrV, pc *Term) *PtrV
+				fa = func(p *PtrV, pc *Term) *PtrV {
+					if p.AltC != nil {
+						return &PtrV{AltC: p.AltC, AltA: fa(p.AltA, b.And(pc, p.AltC)), AltB: fa(p.AltB, b.And(pc, b.Not(p.AltC)))}
+					}
+					if p.Obj == nil {
+						x.oblige("nil-deref", pc, b.False())
+						unsupported("field address of nil pointer")
+					}
+					return &PtrV{Obj: p.Obj, Path: append(append([]PE{}, p.Path...), PE{Field: i.Field}), Nil: p.Nil}
 				}
-				vals[i] = &PtrV{Obj: p.Obj, Path: append(append([]PE{}, p.Path...), PE{Field: i.Field}), Nil: p.Nil}
+				vals[i] = fa(get(i.X).(*PtrV), pc)
 			case *ssa.IndexAddr:
 				vals[i] = x.indexAddr(i, get, cur, pc)
 			case *ssa.Field:
@@ -833,10 +907,8 @@ func (x *Exec) run(fn *ssa.Function, args []Value, st *State, pcIn *Term) (Value
 					vals[i] = x.sel(a, ai)
 				case *ArrV:
 					idx := x.toIdx64(get(i.Index).(*Term), i.Index.Type())
-					if !isC(idx) || idx.Val >= uint64(len(a.E)) {
-						unsupported("symbolic index into an array of non-scalar elements")
-					}
-					vals[i] = a.E[idx.Val]
+					x.oblige("index", pc, b.Cmp("bvult", idx, b.Const(64, uint64(len(a.E)))))
+					vals[i] = x.selArrV(a, idx)
 				case *StrV:
 					idx := x.toIdx64(get(i.Index).(*Term), i.Index.Type())
 					x.oblige("index", pc, b.Cmp("bvult", idx, a.Len))
@@ -999,6 +1071,32 @@ func (x *Exec) run(fn *ssa.Function, args []Value, st *State, pcIn *Term) (Value
 					panic(needUnwind{})
 				}
 				vals[i] = x.rangeNext(get(i.Iter), cur, pc)
+			case *ssa.Select:
+				// only the poll of a context: select { case <-ctx.Done(): …; default: }
+				if i.Blocking || len(i.States) != 1 || i.States[0].Dir != types.RecvOnly {
+					unsupported("select statement other than a non-blocking receive (%s)", i.String())
+				}
+				ch, ok := get(i.States[0].Chan).(*OpaqueV)
+				if !ok || !strings.HasPrefix(ch.Name, "done:") {
+					unsupported("non-blocking receive from a channel that is not a context's Done()")
+				}
+				id := strings.TrimPrefix(ch.Name, "done:")
+				fired := b.Fresh("ctx_done", BoolS())
+				if prev := x.ctxDone[id]; prev != nil {
+					x.assume(b.Implies(b.And(pc, prev), fired))
+				}
+				if x.ctxDone == nil {
+					x.ctxDone = map[string]*Term{}
+				}
+				x.ctxDone[id] = fired
+				// (index, recvOk[, received value]): index 0 if the receive happened, -1 for default
+				tv := &TupleV{E: []Value{b.Ite(fired, b.Const(64, 0), b.Const(64, ^uint64(0))), b.False()}}
+				if tt, ok := i.Type().(*types.Tuple); ok {
+					for k := 2; k < tt.Len(); k++ {
+						tv.E = append(tv.E, x.zeroV(tt.At(k).Type()))
+					}
+				}
+				vals[i] = tv
 			default:
 				unsupported("instruction %T (%s) in %s", ins, ins.String(), fn.Name())
 			}
@@ -1014,6 +1112,10 @@ func (x *Exec) run(fn *ssa.Function, args []Value, st *State, pcIn *Term) (Value
 		// function is unrolled symbolically instead (unwind).
 		nh, no, ni := len(x.hyps), len(x.obligs), len(x.iters)
 		st0 := st // (processBlock moves st along)
+		reads0 := map[string][]*Term{}
+		for k, v := range x.reads {
+			reads0[k] = append([]*Term{}, v...)
+		}
 		exact := func() (ok bool) {
 			defer func() {
 				if r := recover(); r != nil {
@@ -1070,6 +1172,10 @@ func (x *Exec) run(fn *ssa.Function, args []Value, st *State, pcIn *Term) (Value
 				rets, retVals, entered = nil, nil, false
 				vals = initVals()
 				st = st0
+				x.reads = map[string][]*Term{}
+				for k, v := range reads0 {
+					x.reads[k] = append([]*Term{}, v...)
+				}
 			}
 			// Symbolic unrolling ("unwinding"): every round executes each block
 			// at most once in topological order, merging paths; a back edge
@@ -1292,6 +1398,8 @@ func (x *Exec) binop(i *ssa.BinOp, xv, yv Value, st *State) Value {
 		case *PtrV:
 			q := yv.(*PtrV)
 			switch {
+			case p.AltC != nil || q.AltC != nil:
+				eq = x.valEq(p, q)
 			case p.Obj == nil:
 				eq = x.ptrNil(q)
 			case q.Obj == nil:
@@ -1478,8 +1586,18 @@ func (x *Exec) valEq(a, c Value) *Term {
 		return x.ifaceEq(p, c.(*IfaceV))
 	case *PtrV:
 		q := c.(*PtrV)
+		if p.AltC != nil {
+			return b.Ite(p.AltC, x.valEq(p.AltA, q), x.valEq(p.AltB, q))
+		}
+		if q.AltC != nil {
+			return b.Ite(q.AltC, x.valEq(p, q.AltA), x.valEq(p, q.AltB))
+		}
 		if p.Obj == q.Obj && samePath(p.Path, q.Path) {
 			return b.Eq(x.ptrNil(p), x.ptrNil(q))
+		}
+		if p.Obj != nil && q.Obj != nil {
+			// different locations: equal only if both nil
+			return b.And(x.ptrNil(p), x.ptrNil(q))
 		}
 		return b.And(x.ptrNil(p), x.ptrNil(q))
 	case *MapV:
@@ -1725,6 +1843,10 @@ func (x *Exec) typeAssert(i *ssa.TypeAssert, v *IfaceV, st *State, pc *Term) Val
 			isT := b.Var("is_"+typeName(i.AssertedType)+"_"+sanitize(v.Opaque), BoolS())
 			val = x.symV(i.AssertedType, "asserted_"+sanitize(v.Opaque), x.assertObjs())
 			x.asserts[key] = [2]Value{isT, val}
+			if x.assertTypes == nil {
+				x.assertTypes = map[string]types.Type{}
+			}
+			x.assertTypes[key] = i.AssertedType
 			ok = isT
 		}
 		for o, ov := range x.assertHeap {
